@@ -16,3 +16,5 @@ func Install(*Collector) {}
 func Uninstall()         {}
 
 const Enabled = false
+
+func InstallPerturbation(uint64) {}
